@@ -131,7 +131,8 @@ def alphabet(n, names):
     for p in range(n):
         ops.append(("upd_mn", p, "data"))
     ops.append(("upd_mn", "absent", "data"))
-    for ix, field in ((0, "unit"), (-1, "unit"), ("last", "descr"), ("last", "value"), (0, "data"), ("len", "unit")):
+    for ix, field in ((0, "unit"), (-1, "unit"), ("last", "descr"), ("last", "value"), (0, "data"), ("len", "unit"),
+                      (0, "unit_empty"), ("last", "value_zero"), ("last", "descr_empty"), (-1, "value_none")):
         ops.append(("upd_ix", ix, field))
     for ix in (0, -1, "last", "len"):
         for nm in ("Z", "A"):
@@ -143,9 +144,10 @@ def alphabet(n, names):
         ops.append(("set_item", p))
     ops.append(("set_item", "new"))
     ops.append(("set_item", "mismatch"))
-    for extra in (0, 1):
+    for extra in (0, 1, 2):
         ops.append(("set_data", extra, None, False))
         ops.append(("data_eq", extra))
+    ops.append(("set_data", 3, "equal", False))
     ops.append(("set_data", 0, "short", False))
     ops.append(("set_data", 0, "equal", False))
     ops.append(("set_data", 0, "dups", False))
@@ -162,6 +164,11 @@ def res_ix(ix, n):
     if ix == "last":
         return n - 1
     return ix
+
+
+# metadata updates, including falsy new values (clearing a field is an update too)
+FIELD_UPDATES = {"unit": ("unit", "U9"), "descr": ("descr", "new descr"), "value": ("value", "V9"),
+                 "unit_empty": ("unit", ""), "value_zero": ("value", 0), "descr_empty": ("descr", ""), "value_none": ("value", None)}
 
 
 class Undefined(Exception):
@@ -209,7 +216,8 @@ def apply_model(model, op, step, keys):
         if op[2] == "data":
             m[ix]["arr"] = tuple(arr_for(step).tolist())
         else:
-            m[ix][op[2]] = {"unit": "U9", "descr": "new descr", "value": "V9"}[op[2]]
+            f, val = FIELD_UPDATES[op[2]]
+            m[ix][f] = val
     elif kind == "replace":
         ix = res_ix(op[1], n)
         if not (-n <= ix < n):
@@ -299,7 +307,8 @@ def apply_impl(las, op, step):
         if op[2] == "data":
             las.update_curve(ix=ix, data=arr_for(step))
         else:
-            las.update_curve(ix=ix, **{op[2]: {"unit": "U9", "descr": "new descr", "value": "V9"}[op[2]]})
+            f, val = FIELD_UPDATES[op[2]]
+            las.update_curve(ix=ix, **{f: val})
     elif kind == "replace":
         las.replace_curve_item(res_ix(op[1], n), CurveItem(op[2], "RU", "RV", "replaced", arr_for(step)))
     elif kind == "set_arr":
